@@ -90,6 +90,10 @@ func (e *Engine) verify(t *Target) {
 			e.errs = append(e.errs, fmt.Sprintf("unsupported in %s: %v", t.Short, r))
 		}
 	}()
+	e.genDeadline = time.Now().Add(300 * time.Second)
+	if tier == "thorough" {
+		e.genDeadline = time.Now().Add(40 * time.Minute)
+	}
 	e.verify2(t)
 	if verbose {
 		fmt.Printf("  %-60s paths=%d instances=%d\n", t.Short, e.paths-p0, len(e.obs)-n0)
